@@ -89,15 +89,30 @@ impl<T, D: Data<Elem = f64>> Fit<ArrayBase<D, Ix2>, T, ReductionError> for PcaPa
         let mean = x.mean_axis(Axis(0)).unwrap();
         let x = x - &mean;
 
+        // LOBPCG only converges when a few singular triplets of a much larger problem are
+        // requested; when the search directions would exhaust the space it silently returns an
+        // unconverged iterate. In that case request the complete decomposition (exact, because the
+        // initial Rayleigh-Ritz step already spans the whole space) and truncate it afterwards.
+        let full_size = usize::min(x.nrows(), x.ncols());
+        let num_triplets = if 5 * self.embedding_size > full_size {
+            full_size
+        } else {
+            self.embedding_size
+        };
+
         // estimate Singular Value Decomposition
         #[cfg(feature = "blas")]
-        let result =
-            TruncatedSvd::new(x, TruncatedOrder::Largest).decompose(self.embedding_size)?;
+        let result = TruncatedSvd::new(x, TruncatedOrder::Largest).decompose(num_triplets)?;
         #[cfg(not(feature = "blas"))]
         let result = TruncatedSvd::new_with_rng(x, Order::Largest, SmallRng::seed_from_u64(42))
-            .decompose(self.embedding_size)?;
+            .decompose(num_triplets)?;
         // explained variance is the spectral distribution of the eigenvalues
-        let (_, sigma, mut v_t) = result.values_vectors();
+        let (_, sigma, v_t) = result.values_vectors();
+
+        // keep the leading `embedding_size` triplets (they are sorted by decreasing singular value)
+        let num_kept = usize::min(self.embedding_size, sigma.len());
+        let sigma = sigma.slice_move(ndarray::s![..num_kept]);
+        let mut v_t = v_t.slice_move(ndarray::s![..num_kept, ..]);
 
         // cut singular values to avoid numerical problems
         let sigma = sigma.mapv(|x| x.max(1e-8));
